@@ -7,12 +7,12 @@
               _reblock_signature :542-566, consolidate_blocks :621-657, the both-missing
               mask and the block walk with start/end offsets :3133-3151)
            Frame.equals             frame.py:6212-6266
-           Series.equals            series.py:2233-2285
+           Series.equals            series.py:2235-2287
            Index.equals             index.py:1177-1228
            IndexHierarchy.equals    index_hierarchy.py:1277-1314
            IndexLevel.equals        index_level.py:681-753 (tree walk with two stacks)
            Bus.equals               bus.py:939-992
-           SeriesHE/FrameHE __eq__/__ne__/__hash__   series.py:2504-2549, frame.py:7391-7430
+           SeriesHE/FrameHE __eq__/__ne__/__hash__   series.py:2506-2541, frame.py:7391-7430
    The operands of the both-missing mask and the keyword constants of the HE `__eq__`
    are NOT written here: they are parameters (`mcfg`, `eopts`) instantiated from
    Gen/Gen_c10.v, which is re-extracted from the source on every run. *)
